@@ -1094,7 +1094,7 @@ DFANIputann(const char *filename, uint16 tag, uint16 ref, uint8 *ann, int32 annl
     if (!ref)
         HGOTO_ERROR(DFE_BADREF, FAIL);
 
-    if ((file_id = DFANIopen(filename, DFACC_RDWR)) == 0)
+    if ((file_id = DFANIopen(filename, DFACC_RDWR)) == FAIL)
         HGOTO_ERROR(DFE_BADOPEN, FAIL);
 
     anntag = (uint16)((type == DFAN_LABEL) ? DFTAG_DIL : DFTAG_DIA);
@@ -1211,7 +1211,7 @@ DFANIlablist(const char *filename, uint16 tag, uint16 reflist[], uint8 *labellis
     if (!tag)
         HGOTO_ERROR(DFE_BADTAG, FAIL);
 
-    if ((file_id = DFANIopen(filename, DFACC_READ)) == 0)
+    if ((file_id = DFANIopen(filename, DFACC_READ)) == FAIL)
         HGOTO_ERROR(DFE_BADOPEN, FAIL);
 
     /* clear labellist.  pad with blanks for Fortran; add null for C  */
